@@ -642,9 +642,47 @@ def degenerate_case(case: dict) -> bool:
     return bool(max([ref["cond"]] + ref["conds"]) > COND_MAX or not np.isfinite(ref["nll"]))
 
 
+def exhaustive_mask_cases(rng) -> list[dict]:
+    """Thorough tier: one model with two measurement variables (each with its own measurement shock),
+    every missing-data mask on spans of 1..4 periods (4 + 16 + 64 + 256 cases)."""
+    import itertools
+    while True:
+        base = gen_case(rng, max_periods=4)
+        mdl = base["model"]
+        if len(mdl["mnames"]) == 2 and len(mdl["mshocks"]) == 2 and len(mdl["tnames"]) <= 3:
+            break
+    base["nper"] = 4
+    base["data"] = [[round(mdl["steady"][nm] * math.exp(0.2 * rng.gauss(0, 1)), 4) if mdl["mlog"][j]
+                     else round(mdl["steady"][nm] + rng.gauss(0, 1), 4) for _ in range(4)]
+                    for j, nm in enumerate(mdl["mnames"])]
+    base["tv_stds"] = {}; base["shock_means"] = {}; base["pad"] = [0, 0]
+    cases = []
+    for T in (1, 2, 3, 4):
+        for bits in itertools.product([False, True], repeat=2 * T):
+            c = dict(base)
+            c["nper"] = T
+            c["data"] = [col[:T] for col in base["data"]]
+            c["mask"] = [list(bits[:T]), list(bits[T:])]
+            c["deviation"] = bool(sum(bits) % 2)
+            c["rescale_variance"] = bool((sum(bits) // 2) % 2)
+            cases.append(c)
+    return cases
+
+
 def collect_cases(ctx, n: int, max_periods: int, notes: dict) -> list:
     """Generate cases and run the implementation on them; keep the well-conditioned stationary ones."""
     out = []
+    if ctx.thorough and n >= 1000:
+        for case in exhaustive_mask_cases(ctx.rng):
+            try:
+                impl = run_impl(case)
+            except Exception as e:  # noqa
+                notes.setdefault("impl_raised", []).append({"case": case, "error": f"{type(e).__name__}: {e}"[:300]})
+                continue
+            if cond_ok(impl) and not impl["num_unit_roots"]:
+                out.append((case, impl))
+        notes["exhaustive_mask_cases"] = len(out)
+        n += len(out)
     tries = 0
     while len(out) < n and tries < 6 * n + 20:
         tries += 1
@@ -858,6 +896,7 @@ def correspondence(ctx, n_cases: int, n_exact: int, max_periods: int, pid: str, 
     dist["skipped_ill_conditioned"] = notes.get("skipped_ill_conditioned", 0)
     dist["skipped_unit_root"] = notes.get("skipped_unit_root", 0)
     dist["skipped_singular"] = notes.get("skipped_singular", 0)
+    dist["exhaustive_mask_cases"] = notes.get("exhaustive_mask_cases", 0)
     res.distribution = dist
     res.rule = ("one random stationary model built from source text through Simultaneous.from_string (1-4 transition "
                 "variables, lags up to 2, optional lag identity and shock-free equation, log variables, 1-3 measurement "
